@@ -43,8 +43,8 @@ pub open spec fn arc_accept(x: real, from: real, to: real) -> bool {
 
 /// what compute_centers must deliver for one joint
 pub open spec fn centers_ok(from: f64, to: f64, c: f64, t: f64) -> bool {
-    if rv(from) == rv(to) { pinf(t) } else {
-        fin(c) && fin(t) && rv(c) - rv(t) == rv(from) && is_width(rv(from), rv(to), 2real * rv(t))
+    fin(c) && if rv(from) == rv(to) { pinf(t) } else {
+        fin(t) && rv(c) - rv(t) == rv(from) && is_width(rv(from), rv(to), 2real * rv(t))
     }
 }
 
